@@ -904,10 +904,60 @@ func ruleC13Nil(c *Ctx) {
 	c.Check(okG, "C13.NIL", "boltz.GetTypeAndValue", p.Pos(g.Pos()), "empty input decodes to (TypeNil,nil); otherwise tag = byte 0 and value = input[1:] or nil", why)
 
 	// setTyped: TypeNil byte exactly when fieldType == TypeNil || value == nil
-	st := p.SSAFunc(p.Method("boltz", "TypedBucket", "setTyped"))
-	c.Analysed(FnName(st))
 	put := p.ExtMethod(bboltPath, "Bucket", "Put")
 	prepend := p.Func("boltz", "PrependFieldType")
+	// the typed writer: by name, or — when that helper was renamed and reshaped — the method of the typed bucket
+	// that takes a type tag and a value and stores PrependFieldType(tag, value)
+	var st *ssa.Function
+	if m := p.MethodOpt("boltz", "TypedBucket", "setTyped"); m != nil {
+		st = p.SSAFunc(m)
+	} else {
+		tb := p.Named("boltz", "TypedBucket")
+		for mi := 0; mi < tb.NumMethods(); mi++ {
+			// (the helper itself, also when every call of it was expanded in place)
+			fn := p.SSA.FuncValue(tb.Method(mi))
+			if fn == nil || fn.Blocks == nil || len(fn.Params) < 3 || len(fn.Params) > 4 {
+				continue
+			}
+			var tp, vp *ssa.Parameter
+			for _, prm := range fn.Params[1:] {
+				if n := namedOf(prm.Type()); n != nil && n.Obj().Name() == "FieldType" {
+					tp = prm
+				}
+				if sl, isSl := prm.Type().Underlying().(*types.Slice); isSl && types.Identical(sl.Elem(), types.Typ[types.Byte]) {
+					vp = prm
+				}
+			}
+			if tp == nil || vp == nil {
+				continue
+			}
+			var tagged ssa.Value
+			for _, call := range callsIn(fn) {
+				if isCallTo(call, prepend) && len(call.Common().Args) == 2 && call.Common().Args[0] == ssa.Value(tp) && call.Common().Args[1] == ssa.Value(vp) {
+					tagged, _ = call.(ssa.Value)
+				}
+			}
+			if tagged == nil {
+				continue
+			}
+			for _, call := range callsIn(fn) {
+				if !isCallTo(call, put) || len(call.Common().Args) != 3 {
+					continue
+				}
+				for _, leaf := range phiLeaves(call.Common().Args[2]) {
+					if leaf == tagged && st == nil {
+						st = fn
+					}
+				}
+			}
+		}
+		if st == nil {
+			c.Undecided("C13.NIL", "boltz.TypedBucket: typed writer", "-", "no method of the typed bucket stores PrependFieldType(tag, value) for a tag and a value it is given")
+			return
+		}
+		c.Note("C13.NIL: the typed writer is " + FnName(st) + " (found by what it does)")
+	}
+	c.Analysed(FnName(st))
 	fi2 := ComputeFacts(st)
 	// the type tag parameter and the value parameter, by type (their position is not fixed)
 	var typePrm, valuePrm *ssa.Parameter
@@ -1103,6 +1153,20 @@ func ruleC13Codec(c *Ctx) {
 				}
 			}
 		}
+		// ... or the prefix is written into an array of its own (and appended afterwards: append grows as needed)
+		for _, call := range callsIn(enc) {
+			cal, _ := calleeOf(call.Common())
+			if cal == nil || cal.Pkg() == nil || cal.Pkg().Path() != "encoding/binary" || cal.Name() != "PutUvarint" {
+				continue
+			}
+			if n, isArr := byteArrayLen(call.Common().Args[0]); isArr {
+				if n >= need {
+					okBuf = true
+				} else {
+					whyBuf = fmt.Sprintf("the length prefix is written into an array of %d byte(s) but values up to MaxLinkedSetKeySize=%d need %d", n, maxK, need)
+				}
+			}
+		}
 		c.Check(okBuf, "C13.CODEC", "boltz.EncodeByteSlice: prefix room", p.Pos(enc.Pos()), fmt.Sprintf("the buffer reserves at least %d byte(s) for the uvarint length prefix", need), whyBuf)
 	}
 	// every PutUvarint in the package writes into a buffer whose room for the prefix is evident
@@ -1124,6 +1188,10 @@ func ruleC13Codec(c *Ctx) {
 					}
 				}
 				construct := FnName(fn) + ": PutUvarint destination"
+				if n, isArr := byteArrayLen(call.Common().Args[0]); isArr {
+					c.Check(n >= need, "C13.CODEC", construct, p.Pos(call.Pos()), "written into a local array that is long enough for the longest prefix", fmt.Sprintf("the length prefix is written into an array of %d byte(s); %d are needed for lengths up to the bound", n, need))
+					continue
+				}
 				ms, isMS := dst.(*ssa.MakeSlice)
 				if !isMS {
 					c.Undecided("C13.CODEC", construct, p.Pos(call.Pos()), "the destination of the length prefix is not a buffer made in this function: its room for the prefix cannot be established")
@@ -1208,4 +1276,29 @@ func ruleC13List(c *Ctx) {
 		}
 		c.Check(ok && n > 0, "C13.LIST", FnName(fn), p.Pos(fn.Pos()), "the list bucket is emptied before the new entries are written into it", "entries are written without first emptying the list bucket (stale elements survive)")
 	}
+}
+
+// byteArrayLen: v is a slice of a whole local byte array ([N]byte, sliced from 0); returns N.
+func byteArrayLen(v ssa.Value) (int64, bool) {
+	sl, ok := v.(*ssa.Slice)
+	if !ok {
+		return 0, false
+	}
+	if sl.Low != nil {
+		if k, isK := sl.Low.(*ssa.Const); !isK || k.Value == nil || k.Int64() != 0 {
+			return 0, false
+		}
+	}
+	if sl.High != nil {
+		return 0, false
+	}
+	al, ok := sl.X.(*ssa.Alloc)
+	if !ok {
+		return 0, false
+	}
+	arr, ok := derefType(al.Type()).Underlying().(*types.Array)
+	if !ok || !types.Identical(arr.Elem(), types.Typ[types.Byte]) {
+		return 0, false
+	}
+	return arr.Len(), true
 }
